@@ -523,6 +523,9 @@ func (w *lworker) kill() {
 	_, _ = w.cmd.Process.Wait()
 }
 
+// a leaf-level case takes milliseconds (composites ≈ 60 ms); the controllers give up after 12 s + 3 s at most
+const workerCaseTimeout = 40 * time.Second
+
 var (
 	lwMu sync.Mutex // controlled runs are serial anyway (one goroutine runs at a time)
 	lw   *lworker
@@ -575,10 +578,12 @@ func runInWorker(input string) string {
 			return "CRASH"
 		}
 		return strings.TrimRight(r.line, "\n")
-	case <-time.After(caseTimeout - 500*time.Millisecond):
+	case <-time.After(workerCaseTimeout):
+		// the worker did not answer: slowness of a loaded machine cannot be told from a deadlock here (a deadlock inside a
+		// case is reported by the controllers themselves: `i:HANG`, HANG): inconclusive
 		w.kill()
 		lw = nil
-		return "HANG"
+		return "TIMEOUT"
 	}
 }
 
